@@ -34,7 +34,7 @@ Definition hb_reserve_rehash1 (t : hb) : M' hb :=
   else
     nt <- hb_with_capacity false (N.max (items + 1) (full + 1)) ;;
     match nt with
-    | None => fault_ FBadOp
+    | None => fault_ FUnreachable
     | Some nt =>
         (* a panicking hasher frees the new table and leaves the old one as it was *)
         on_unwind (rehash_all (map_to_list (hel t)).*2) (hb_free nt) ;;;
@@ -97,7 +97,7 @@ Definition hb_shrink_to (t : hb) (min_size : N) : M' hb :=
            if mb <? hB t then
              nt <- hb_with_capacity false min_size ;;
              match nt with
-             | None => fault_ FBadOp
+             | None => fault_ FUnreachable
              | Some nt =>
                  on_unwind (rehash_all (map_to_list (hel t)).*2) (hb_free nt) ;;;
                  hb_free t ;;;
@@ -200,7 +200,7 @@ Definition rt_carry : M' unit :=
 
 Fixpoint carry_all_loop (fuel : nat) : M' unit :=
   match fuel with
-  | O => fault_ FBadOp
+  | O => fault_ FUnreachable
   | S fuel =>
       x <- old_pop ;;
       match x with
@@ -243,7 +243,7 @@ Definition rt_try_grow (fallible : bool) (extra : N) : M' bool :=
   end.
 
 Definition rt_grow (extra : N) : M' unit :=
-  b <- rt_try_grow false extra ;; if b then ret tt else fault_ FBadOp.
+  b <- rt_try_grow false extra ;; if b then ret tt else fault_ FUnreachable.
 
 Definition rt_insert_no_grow (e : elem) : M' unit :=
   main_insert_no_grow e ;;;
